@@ -32,6 +32,8 @@ var c03Templates = []string{
 	`{% include "` + c03IncName + `" %}`,
 	"{% assign x = 'half' %}{% for i in a %}{{ i }}{% if forloop.index == 2 %}{{ i | failing }}{% endif %}{% endfor %}",
 	"{% tablerow i in a cols: 2 %}{{ i }}{% endtablerow %}",
+	"{% for i in a %}{% cycle 'p', 'q', 'r' %}{% cycle 'g': '1', '2' %}{% if forloop.index == 2 %}{{ i | failing }}{% endif %}{% endfor %}",
+	"  lead {{ x -}} ",
 	// thorough
 	"{{ ints | sort | join }}{{ strs | reverse | join }}{{ arr | sort | first }}{{ drop | sort | join }}{{ pst.A }}{{ st.C | sort | join }}",
 	"{{ ms | sort | join }}{{ rng | reverse | join }}{% for kv in m %}{{ kv[0] }}{% endfor %}{{ m.j | sort | join }}",
@@ -199,7 +201,7 @@ func firstDiff(a, b string) string {
 }
 
 func c03Families(tier string) []explore.Family {
-	nT, nB, depth := 14, 3, 2
+	nT, nB, depth := 16, 3, 2
 	if tier == "thorough" {
 		nT, nB, depth = len(c03Templates), 4, 3
 	}
@@ -270,7 +272,7 @@ func init() {
 	explore.Register(&explore.Prop{
 		ID:    "C03",
 		Level: "model_checking",
-		Rule: "explicit-state search over histories of renders R(t,b) on one shared world (one engine, templates parsed once, binding environments built once and shared by reference): all histories of length <=2 over 14 templates x 3 environments (quick) / <=3 over 24 x 4 (thorough), each replayed on a fresh world, plus 40-step round-robin histories from every starting operation; " +
+		Rule: "explicit-state search over histories of renders R(t,b) on one shared world (one engine, templates parsed once, binding environments built once and shared by reference): all histories of length <=2 over 16 templates x 3 environments (quick) / <=3 over 26 x 4 (thorough), each replayed on a fresh world, plus 40-step round-robin histories from every starting operation; " +
 			"templates cover assign of a bound name, capture, shadowing loops, cycle groups, nested loops with break, every array filter on bound arrays (incl. aliased sub-slices and spare capacity), include, a render failing half-way, tablerow, typed slices, structs, pointers, Drops, MapSlice, ranges; " +
 			"invariants after every step: deep snapshot of every environment unchanged (slices up to capacity, unexported fields, aliasing), result equals the solo result on a fresh engine/parse/bindings, render trees and engine configuration unchanged; state = canonical world snapshot after the history (one state on a correct tree); transition = one render",
 		Assumptions: []string{
